@@ -80,9 +80,11 @@ def project(e):
     return {"t": e["t"], "seq": e["seq"], "e": "Row", "in": e["in"], "out": {k: o[k] for k in OUT_KEYS}}
 
 
-def crashed_row(ctx, name):
-    """the row whose Begin line has no Row line in a shard's output (the code under test crashed the process)"""
+def harvest(ctx, name):
+    """after a failed shard run: the Row events that were written, and the rows whose Begin line has no Row line in
+    a shard whose log shows a panic inside internal/check/dnsbl (the code under test crashed the process)"""
     d = os.path.join(ctx.work, name)
+    got, bad = [], []
     for f in sorted(os.listdir(d)):
         if not (f.startswith("out") and f.endswith(".ndjson")):
             continue
@@ -95,13 +97,18 @@ def crashed_row(ctx, name):
                 e = json.loads(line)
             except ValueError:
                 continue
-            (begun.append(e["t"]) if e["e"] == "Begin" else done.add(e["t"]))
+            if e["e"] == "Begin":
+                begun.append(e["t"])
+            else:
+                done.add(e["t"])
+                got.append(e)
         left = [t for t in begun if t not in done]
         log = os.path.join(d, f.replace("out", "log").replace(".ndjson", ".txt"))
         txt = open(log).read() if os.path.exists(log) else ""
         if left and ("panic:" in txt or "fatal error:" in txt) and "internal/check/dnsbl" in txt:
-            return left[-1], txt[-3000:]
-    return None, None
+            k = txt.find("panic:")
+            bad.append((left[-1], txt[max(0, k):k + 2500]))
+    return got, bad
 
 
 def run(ctx, replay):
@@ -148,35 +155,45 @@ def run(ctx, replay):
     # ---- (B) the real code ------------------------------------------------------
     binary = ctx.build_harness("dnsblcheck")
     items = [{"id": row["id"], "in": row["in"], "zone": row["zone"]} for row in sel]
-    crashed = None
-    try:
-        events = ctx.run_shards(binary, items, timeout=1500)
-    except vlib.Infra as e:
-        t, tail = crashed_row(ctx, "replay")
-        if t is None:
-            raise
-        # the module crashed the process while this row was running: that is a statement about maddy
-        crashed = (t, tail)
-        items = [it for it in items if it["id"] != t]
-        events = ctx.run_shards(binary, items, timeout=1500, name="replay2") if items else []
+    # a panic inside the module kills the process: the row that was running is a statement about maddy
+    # (NoCrash); the other rows of that shard are run again
+    pending, events, crashed = items, [], []
+    for attempt in range(6):
+        name = "replay" if attempt == 0 else "replay%d" % attempt
+        try:
+            events += ctx.run_shards(binary, pending, timeout=1500, name=name)
+            pending = []
+            break
+        except vlib.Infra:
+            got, bad = harvest(ctx, name)
+            if not bad:
+                raise
+            events += got
+            crashed += bad
+            done = {e["t"] for e in got} | {t for t, _ in bad}
+            pending = [it for it in pending if it["id"] not in done]
     events = [e for e in events if e["e"] == "Row"]
     ctx.log("real code answered %d rows" % len(events))
-    if len(events) != len(items):
+    if crashed:
+        ctx.log("the module crashed the process on %d rows (%d rows not run after %d attempts)" % (
+            len(crashed), len(pending), attempt + 1))
+    elif len(events) != len(items):
         raise vlib.Infra("harness answered %d of %d rows" % (len(events), len(items)))
     ev_by_t = {e["t"]: e for e in events}
-    if crashed:
-        row = by_id[crashed[0]]
+    for t, tail in crashed:
+        row = by_id[t]
         fake = {"t": row["id"], "seq": 2, "e": "Row", "in": row["in"],
-                "out": {"action": "panic", "stage": "none", "code": 0, "queries": [], "action2": "n/a", "panic": crashed[1]}}
+                "out": {"action": "panic", "stage": "none", "code": 0, "queries": [], "action2": "n/a", "panic": tail}}
         events.append(fake)
         ev_by_t[row["id"]] = fake
+    sel = [row for row in sel if row["id"] in ev_by_t]
 
     # binding self-test: forged outputs must be rejected, and must not pass as findings
     selftest = {}
     if not replay:
         def forge(t, pred, **chg):
             # built from the row and the rule's output only: independent of what the code did
-            for row in sel:
+            for row in rows:
                 if pred(row):
                     f = {"t": t, "seq": 2, "e": "Row", "in": row["in"], "out": dict(row["exp"])}
                     f["out"].update(chg)
